@@ -799,14 +799,19 @@ impl<'a> Visitor<'a> {
     /// <https://sass-lang.com/documentation/at-rules/import#load-paths>
     #[allow(clippy::cognitive_complexity, clippy::redundant_clone)]
     pub fn find_import(&self, path: &Path) -> Option<PathBuf> {
-        let path_buf = if path.is_absolute() {
-            path.into()
-        } else {
-            self.current_import_path
-                .parent()
-                .unwrap_or_else(|| Path::new(""))
-                .join(path)
-        };
+        self.find_import_for(path, true)
+    }
+
+    /// Resolve a Sass `@import` (`for_import`), `@use` or `@forward` URL: relative
+    /// to the importing file first, then in each load path. Import-only files
+    /// (`name.import.scss`) are only considered for `@import`.
+    fn find_import_for(&self, path: &Path, for_import: bool) -> Option<PathBuf> {
+        // append `suffix` to the whole file name (dots in names are kept)
+        fn with_suffix(path: &Path, suffix: &str) -> PathBuf {
+            let mut name = path.as_os_str().to_os_string();
+            name.push(suffix);
+            PathBuf::from(name)
+        }
 
         macro_rules! try_path {
             ($path:expr) => {
@@ -826,42 +831,55 @@ impl<'a> Visitor<'a> {
             };
         }
 
-        if path_buf.extension() == Some(OsStr::new("scss"))
-            || path_buf.extension() == Some(OsStr::new("sass"))
-            || path_buf.extension() == Some(OsStr::new("css"))
-        {
-            let extension = path_buf.extension().unwrap();
-            try_path!(path_buf.with_extension(format!(".import{}", extension.to_str().unwrap())));
-            try_path!(path_buf);
-            // todo: consider load paths
-            return None;
-        }
-
         macro_rules! try_path_with_extensions {
             ($path:expr) => {
                 let path = $path;
-                try_path!(path.with_extension("import.sass"));
-                try_path!(path.with_extension("import.scss"));
-                try_path!(path.with_extension("import.css"));
-                try_path!(path.with_extension("sass"));
-                try_path!(path.with_extension("scss"));
-                try_path!(path.with_extension("css"));
+                if for_import {
+                    try_path!(with_suffix(path, ".import.sass"));
+                    try_path!(with_suffix(path, ".import.scss"));
+                    try_path!(with_suffix(path, ".import.css"));
+                }
+                try_path!(with_suffix(path, ".sass"));
+                try_path!(with_suffix(path, ".scss"));
+                try_path!(with_suffix(path, ".css"));
             };
         }
 
-        try_path_with_extensions!(path_buf.clone());
+        let has_explicit_extension = matches!(
+            path.extension().and_then(OsStr::to_str),
+            Some("scss" | "sass" | "css")
+        );
 
-        if self.options.fs.is_dir(&path_buf) {
-            try_path_with_extensions!(path_buf.join("index"));
-        }
+        let relative_to_importer = if path.is_absolute() {
+            path.to_path_buf()
+        } else {
+            self.current_import_path
+                .parent()
+                .unwrap_or_else(|| Path::new(""))
+                .join(path)
+        };
 
-        for load_path in &self.options.load_paths {
-            let path_buf = load_path.join(path);
+        let locations = std::iter::once(relative_to_importer).chain(
+            self.options
+                .load_paths
+                .iter()
+                .map(|load_path| load_path.join(path)),
+        );
+
+        for path_buf in locations {
+            if has_explicit_extension {
+                if for_import {
+                    let extension = path_buf.extension().unwrap().to_str().unwrap();
+                    try_path!(path_buf.with_extension(format!("import.{}", extension)));
+                }
+                try_path!(path_buf.clone());
+                continue;
+            }
 
             try_path_with_extensions!(&path_buf);
 
             if self.options.fs.is_dir(&path_buf) {
-                try_path_with_extensions!(path_buf.join("index"));
+                try_path_with_extensions!(&path_buf.join("index"));
             }
         }
 
@@ -884,10 +902,10 @@ impl<'a> Visitor<'a> {
     fn import_like_node(
         &mut self,
         url: &str,
-        _for_import: bool,
+        for_import: bool,
         span: Span,
     ) -> SassResult<StyleSheet> {
-        if let Some(name) = self.find_import(url.as_ref()) {
+        if let Some(name) = self.find_import_for(url.as_ref(), for_import) {
             let name = self.options.fs.canonicalize(&name).unwrap_or(name);
             if let Some(style_sheet) = self.import_cache.get(&name) {
                 return Ok(style_sheet.clone());
